@@ -10,7 +10,7 @@ def bits(x): return str(struct.unpack("<Q", struct.pack("<d", float(x)))[0])
 def gen_ops(ctx):
     r, th, ops = ctx.rng, ctx.thorough(), []
     shapes = [(w, h) for w in range(1, 5) for h in range(1, 5)] + [(5, 1), (1, 5), (6, 3)]
-    if th: shapes += [(w, h) for w in (5, 7) for h in (2, 5, 7)] + [(9, 1), (1, 9)]
+    if th: shapes += [(w, h) for w in (5, 7, 10) for h in (2, 5, 7, 12)] + [(9, 1), (1, 9), (16, 16)]
     D = 8
     # --- the access pattern: both samplers on the coordinate-recording virtual view, the complete 1/8 grid over [-2, w+1] x [-2, h+1]
     for (w, h) in shapes:
@@ -21,11 +21,16 @@ def gen_ops(ctx):
     for (w, h) in shapes:
         for vi, vt in enumerate(VT):
             for F in "fd":
-                step = 1 if (vt == "g8" or th) else 3
+                step = 1 if (vt == "g8" or th) else 2
                 for ny in range(-2 * D + (vi % step), D * (h + 1) + 1, step):
                     if step > 1 and F == "fd"[(ny + vi) % 2]: continue
                     for k in ("bil", "near"):
                         ops.append("%s %s %s %d %d %d %d %d %d 1" % (k, vt, F, w, h, D, ny, -2 * D, D * (w + 3) + 1))
+    # finer grid (1/16 pixel: still exact in binary32 for these sources)
+    for (w, h) in (shapes if th else shapes[:6]):
+        for ny in range(-32, 16 * (h + 1) + 1, 1 if th else 5):
+            ops.append("tap b %s %d %d 16 %d -32 %d 1" % ("fd"[ny % 2], w, h, ny, 16 * (w + 3) + 1))
+            ops.append("bil %s %s %d %d 16 %d -32 %d 1" % (VT[ny % len(VT)], "df"[ny % 2], w, h, ny, 16 * (w + 3) + 1))
     # coarser grids (half / quarter pixels, integers only), wider range
     for (w, h) in shapes[:8]:
         for Dd in (1, 2, 4):
@@ -35,7 +40,7 @@ def gen_ops(ctx):
     # --- resample_pixels with random affine maps whose entries are multiples of 1/8 (sample points stay on the grid)
     for vt in VT:
         for s in "bn":
-            for i in range(60 if th else 12):
+            for i in range(200 if th else 12):
                 w, h, dw, dh = r.range(1, 6), r.range(1, 6), r.range(1, 7), r.range(1, 7)
                 if i % 4 == 0: m = [8, 0, 0, 8, r.range(-12, 12), r.range(-12, 12)]            # translation
                 elif i % 4 == 1: m = [r.range(1, 16), 0, 0, r.range(1, 16), r.range(-8, 8), r.range(-8, 8)]   # scale + translation
@@ -53,7 +58,7 @@ def gen_ops(ctx):
     import math
     for vt in VT:
         for s in "bn":
-            for i in range(40 if th else 8):
+            for i in range(200 if th else 8):
                 w, h, dw, dh = r.range(1, 6), r.range(1, 6), r.range(1, 7), r.range(1, 7)
                 th_, sc = rnd(-3.2, 3.2), rnd(0.3, 2.0)
                 m = [sc * math.cos(th_), sc * math.sin(th_), -sc * math.sin(th_), sc * math.cos(th_), rnd(-2, w + 1), rnd(-2, h + 1)]
